@@ -97,7 +97,8 @@ func FetchBlockFromMergedBlocksStore(
 			return dstore.StopIteration
 		}
 		foundBlock = blk
-		return nil
+		// stop right here: the stop block option cannot express "stop at block 0"
+		return dstore.StopIteration
 	})
 	fs := NewFileSource(
 		store,
